@@ -102,16 +102,33 @@ theorem getElem?_map_some {β γ : Type} {l : List β} {f : β → γ} {i : ℕ}
   obtain ⟨p, hp, hf⟩ := Option.map_eq_some_iff.mp h
   exact ⟨p, hp, hf, List.mem_of_getElem? hp⟩
 
+/-- how the straddling branch hands on the result of `_line_segment_to_plane`
+(`sw = true`: swapped into `(dist, plane point, hull point)` — the current code; `sw = false`: forwarded
+unchanged — the code before /repo 4c5c535) -/
+def hullFwd (sw : Bool) (x : Except Err (Res3 ℝ)) : Except Err (Res3 ℝ) := do
+  let r ← x
+  pure (if sw then ⟨r.d, r.p2, r.p1, r.br⟩ else r)
+
+theorem hullFwd_ok {sw : Bool} {x : Except Err (Res3 ℝ)} {r : Res3 ℝ} (h : hullFwd sw x = .ok r) :
+    ∃ r', x = .ok r' ∧ r = (if sw then ⟨r'.d, r'.p2, r'.p1, r'.br⟩ else r') := by
+  unfold hullFwd at h
+  cases x with
+  | error e => simp only [bind, Except.bind] at h; cases h
+  | ok r' =>
+    simp only [bind, Except.bind, pure, Except.pure] at h
+    injection h with h
+    exact ⟨r', rfl, h.symm⟩
+
 /-- what the function computes, for a non-empty vertex list -/
-theorem planeToHull_char (pp n : V) (pts : List V) (hne : pts ≠ []) :
+theorem planeToHullG_char (sw : Bool) (pp n : V) (pts : List V) (hne : pts ≠ []) :
     ∃ pmin pmax, pmin ∈ pts ∧ pmax ∈ pts ∧
       (∀ p ∈ pts, V3.dot (pmin - pp) n ≤ V3.dot (p - pp) n) ∧
       (∀ p ∈ pts, V3.dot (p - pp) n ≤ V3.dot (pmax - pp) n) ∧
       ((V3.dot (pmin - pp) n * V3.dot (pmax - pp) n < 0 ∧
-          planeToHull pp n pts = segToPlaneK pmin pmax pp n 1e-6) ∨
+          planeToHullG sw pp n pts = hullFwd sw (segToPlaneK pmin pmax pp n 1e-6)) ∨
        (¬ V3.dot (pmin - pp) n * V3.dot (pmax - pp) n < 0 ∧
           ∃ cp, cp ∈ pts ∧ (∀ p ∈ pts, |V3.dot (cp - pp) n| ≤ |V3.dot (p - pp) n|) ∧
-            planeToHull pp n pts
+            planeToHullG sw pp n pts
               = .ok ⟨|V3.dot (cp - pp) n|, cp - (V3.dot (cp - pp) n) * n, cp, 10⟩)) := by
   have hts : (pts.map fun p => V3.dot (p - pp) n) ≠ [] := by simpa using hne
   obtain ⟨tmin, hmin, hminle⟩ := argmin_spec _ hts
@@ -126,8 +143,8 @@ theorem planeToHull_char (pp n : V) (pts : List V) (hne : pts ≠ []) :
   · by_cases hs : V3.dot (pmin - pp) n * V3.dot (pmax - pp) n < 0
     · left
       refine ⟨hs, ?_⟩
-      unfold planeToHull
-      simp only [pure, Except.pure]
+      unfold planeToHullG hullFwd
+      dsimp only
       rw [hmin, hmax, hpmin, hpmax]
       dsimp only
       rw [← hfmin, ← hfmax, if_pos hs]
@@ -143,7 +160,7 @@ theorem planeToHull_char (pp n : V) (pts : List V) (hne : pts ≠ []) :
           (List.mem_map.mpr ⟨_, List.mem_map.mpr ⟨p, hp, rfl⟩, rfl⟩)
         rw [← hft, ← hfcp, absS_real, absS_real] at this
         exact this
-      · unfold planeToHull
+      · unfold planeToHullG
         simp only [pure, Except.pure]
         rw [hmin, hmax, hpmin, hpmax]
         dsimp only
@@ -152,11 +169,17 @@ theorem planeToHull_char (pp n : V) (pts : List V) (hne : pts ≠ []) :
         dsimp only
         rw [← hfcp, absS_real]
 
-theorem planeToHull_ok (pp n : V) (pts : List V) (hne : pts ≠ []) : ∃ r, planeToHull pp n pts = .ok r := by
-  obtain ⟨pmin, pmax, _, _, _, _, h⟩ := planeToHull_char pp n pts hne
+theorem planeToHullG_ok (sw : Bool) (pp n : V) (pts : List V) (hne : pts ≠ []) :
+    ∃ r, planeToHullG sw pp n pts = .ok r := by
+  obtain ⟨pmin, pmax, _, _, _, _, h⟩ := planeToHullG_char sw pp n pts hne
   rcases h with ⟨_, he⟩ | ⟨_, cp, _, _, he⟩
-  · rw [he]; exact segToPlaneK_ok pmin pmax pp n (by norm_num)
+  · obtain ⟨r', hr'⟩ := segToPlaneK_ok pmin pmax pp n (by norm_num : (0 : ℝ) < 1e-6)
+    rw [he, hr']
+    exact ⟨_, rfl⟩
   · exact ⟨_, he⟩
+
+theorem planeToHull_ok (pp n : V) (pts : List V) (hne : pts ≠ []) : ∃ r, planeToHull pp n pts = .ok r :=
+  planeToHullG_ok true pp n pts hne
 
 /-- the band condition of `_plane_to_convex_hull_points`: no pair of vertices on opposite sides of the plane
 whose connecting segment makes an angle with the plane with `sin² < 1e-6` (the hard-coded epsilon the
@@ -214,19 +237,49 @@ theorem straddle_hit {p q pp n : V} {r : Res3 ℝ} (h : segToPlaneK p q pp n 1e-
     linarith
   · exfalso; linarith
 
-/-- everything `_plane_to_convex_hull_points` promises, outside the band:
-`p1` on the plane, `p2` in the hull, consistent distance, and global optimality against **any** set `K`
-whose heights over the plane are bounded by the extreme vertex heights (the hull itself, or a convex body
-of which the listed points are support points in the directions `±n`) -/
+/-- **feasibility of `_plane_to_convex_hull_points` for every placement** (no band hypothesis, since /repo
+4c5c535 hands the tuple of `_line_segment_to_plane` on in the documented order): `p1` on the plane, `p2` in the
+hull of the listed points, `d² = |p1 − p2|²`, `d ≥ 0` -/
+theorem planeToHull_feas {pp n : V} {pts : List V} {r : Res3 ℝ} (h : planeToHull pp n pts = .ok r)
+    (hne : pts ≠ []) (hu : UnitVec n) :
+    planeSet pp n r.p1 ∧ Hull pts r.p2 ∧ (r.d * r.d = V3.normSq (r.p1 - r.p2) ∧ 0 ≤ r.d) := by
+  have h' : planeToHullG true pp n pts = .ok r := h
+  obtain ⟨pmin, pmax, hmin, hmax, _, _, hc⟩ := planeToHullG_char true pp n pts hne
+  rcases hc with ⟨_, he⟩ | ⟨_, cp, hcp, _, he⟩
+  · rw [he] at h'
+    obtain ⟨r', hr', hrr⟩ := hullFwd_ok h'
+    simp only [if_true] at hrr
+    subst hrr
+    refine ⟨segToPlaneK_mem₂ hr' hu, segment_subset_hull hmin hmax _ (segToPlaneK_mem₁ hr'), ?_⟩
+    have := segToPlaneK_dist hr' hu
+    show r'.d * r'.d = V3.normSq (r'.p2 - r'.p1) ∧ 0 ≤ r'.d
+    rw [normSq_sub_comm]; exact this
+  · rw [he] at h'
+    injection h' with h'
+    subst h'
+    have hτ : V3.dot n (cp - pp) = V3.dot (cp - pp) n := V3.dot_comm _ _
+    refine ⟨?_, Hull.vertex cp hcp, ?_⟩
+    · show planeSet pp n (cp - (V3.dot (cp - pp) n) * n)
+      rw [← hτ]; exact foot_mem cp pp n hu
+    · have := foot_dist cp pp n hu
+      rw [hτ, normSq_sub_comm] at this
+      exact this
+
+/-- everything `_plane_to_convex_hull_points` promises: feasibility (`planeToHull_feas`) and, outside the band,
+global optimality against **any** set `K` whose heights over the plane are bounded by the extreme vertex
+heights (the hull itself, or a convex body of which the listed points are support points in the directions `±n`) -/
 theorem planeToHull_spec_gen {pp n : V} {pts : List V} {r : Res3 ℝ} (h : planeToHull pp n pts = .ok r)
     (hne : pts ≠ []) (hu : UnitVec n) (hband : HullNoBand pp n pts) (K : V → Prop)
     (hK : ∀ y, K y → ∀ lo hi : ℝ, (∀ p ∈ pts, lo ≤ V3.dot (p - pp) n) → (∀ p ∈ pts, V3.dot (p - pp) n ≤ hi) →
       lo ≤ V3.dot (y - pp) n ∧ V3.dot (y - pp) n ≤ hi) :
     planeSet pp n r.p1 ∧ Hull pts r.p2 ∧ (r.d * r.d = V3.normSq (r.p1 - r.p2) ∧ 0 ≤ r.d) ∧
       LowerBound (planeSet pp n) K r.d := by
-  obtain ⟨pmin, pmax, hmin, hmax, hlo, hhi, hc⟩ := planeToHull_char pp n pts hne
+  obtain ⟨f1, f2, f3⟩ := planeToHull_feas h hne hu
+  refine ⟨f1, f2, f3, ?_⟩
+  have h' : planeToHullG true pp n pts = .ok r := h
+  obtain ⟨pmin, pmax, hmin, hmax, hlo, hhi, hc⟩ := planeToHullG_char true pp n pts hne
   rcases hc with ⟨hs, he⟩ | ⟨hs, cp, hcp, hcl, he⟩
-  · -- straddling: the hit point
+  · -- straddling outside the band: the hit point, d = 0
     have hlt : V3.dot (pmin - pp) n < 0 ∧ 0 < V3.dot (pmax - pp) n := by
       have := hlo pmax hmax
       constructor
@@ -236,30 +289,20 @@ theorem planeToHull_spec_gen {pp n : V} {pts : List V} {r : Res3 ℝ} (h : plane
       · by_contra hle
         push Not at hle
         nlinarith
-    rw [he] at h
-    obtain ⟨hd, hp2, hseg, hpl⟩ := straddle_hit h hlt.1 hlt.2 (hband pmin hmin pmax hmax hlt.1 hlt.2)
-    refine ⟨hpl, ?_, ?_, ?_⟩
-    · rw [hp2]; exact segment_subset_hull hmin hmax _ hseg
-    · rw [hd, hp2]
-      refine ⟨?_, le_refl _⟩
-      vsimp; ring
-    · intro x _ y _
-      rw [hd]; simp only [mul_zero]; exact V3.normSq_nonneg _
+    rw [he] at h'
+    obtain ⟨r', hr', hrr⟩ := hullFwd_ok h'
+    simp only [if_true] at hrr
+    subst hrr
+    obtain ⟨hd, _, _, _⟩ := straddle_hit hr' hlt.1 hlt.2 (hband pmin hmin pmax hmax hlt.1 hlt.2)
+    intro x _ y _
+    show r'.d * r'.d ≤ _
+    rw [hd]; simp only [mul_zero]; exact V3.normSq_nonneg _
   · -- all vertices on one side: the vertex closest to the plane
-    rw [he] at h
-    injection h with h
-    subst h
+    rw [he] at h'
+    injection h' with h'
+    subst h'
     have hτ : V3.dot n (cp - pp) = V3.dot (cp - pp) n := V3.dot_comm _ _
-    have hfoot : cp - (V3.dot (cp - pp) n) * n = cp - (V3.dot n (cp - pp)) * n := by rw [hτ]
-    have hdist : |V3.dot (cp - pp) n| * |V3.dot (cp - pp) n|
-        = V3.normSq ((cp - (V3.dot (cp - pp) n) * n) - cp) ∧ 0 ≤ |V3.dot (cp - pp) n| := by
-      have := foot_dist cp pp n hu
-      rw [hτ, normSq_sub_comm] at this
-      exact this
-    refine ⟨?_, Hull.vertex cp hcp, hdist, ?_⟩
-    · show planeSet pp n (cp - (V3.dot (cp - pp) n) * n)
-      rw [hfoot]; exact foot_mem cp pp n hu
-    · apply lowerBound_of_variational hdist.1
+    · apply lowerBound_of_variational f3.1
       · intro x hx
         show 0 ≤ V3.dot (cp - (V3.dot (cp - pp) n) * n - cp) (x - (cp - (V3.dot (cp - pp) n) * n))
         have := foot_orth cp pp n hu x hx
@@ -344,7 +387,20 @@ theorem planeToSupportPair_spec {pp n pm pq : V} {K : V → Prop} {r : Res3 ℝ}
   · exact hm.1
   · exact hq.1
 
-/-! ### the as-is defect inside the band -/
+/-- feasibility of the tail of `plane_to_ellipsoid` / `plane_to_cylinder` for every placement (no band) -/
+theorem planeToSupportPair_feas {pp n pm pq : V} {K : V → Prop} {r : Res3 ℝ}
+    (h : planeToHull pp n [pm, pq] = .ok r) (hu : UnitVec n) (hc : ConvexSet K) (hm : K pm) (hq : K pq) :
+    planeSet pp n r.p1 ∧ K r.p2 ∧ (r.d * r.d = V3.normSq (r.p1 - r.p2) ∧ 0 ≤ r.d) := by
+  obtain ⟨h1, h2, h3⟩ := planeToHull_feas h (by simp) hu
+  refine ⟨h1, ?_, h3⟩
+  apply hull_subset_convex hc _ _ h2
+  intro p hp
+  simp only [List.mem_cons, List.mem_nil_iff, or_false] at hp
+  rcases hp with rfl | rfl
+  · exact hm
+  · exact hq
+
+/-! ### the defect of the code before /repo 4c5c535 (finding F-c10-plane-hull-swapped, repaired) -/
 
 /-- `(dir·n)² · |q − p|² = ((q − p)·n)²` for the normalised direction of `convert_segment_to_line` -/
 theorem segmentToLine_sin (p q n : V) :
@@ -357,26 +413,31 @@ theorem segmentToLine_sin (p q n : V) :
     rw [hdir]; vsimp; ring
   rw [this, ← hsq]; ring
 
-/-- **As-is defect (finding F-c10-plane-hull-swapped).**  If the vertices lie on both sides of the plane but every
-straddling vertex pair is inside the band (`sin² < 1e-6` between its segment and the plane), then
-`_plane_to_convex_hull_points` forwards the *parallel* answer of `_line_segment_to_plane` unchanged:
-the first returned point (documented as the closest point **on the plane**) is a vertex strictly
-below the plane, and the returned distance is positive although hull and plane intersect. -/
-theorem planeToHull_asIs_band {pp n : V} {pts : List V} {r : Res3 ℝ} (h : planeToHull pp n pts = .ok r)
+/-- **Defect of the code before /repo 4c5c535 (finding F-c10-plane-hull-swapped, repaired).**  If the vertices lie
+on both sides of the plane but every straddling vertex pair is inside the band (`sin² < 1e-6` between its segment
+and the plane), then the old `_plane_to_convex_hull_points` forwarded the *parallel* answer of
+`_line_segment_to_plane` unchanged: the first returned point (documented as the closest point **on the plane**)
+is a vertex strictly below the plane. -/
+theorem planeToHull_before_fix_band {pp n : V} {pts : List V} {r : Res3 ℝ}
+    (h : planeToHull_asIs_before_fix pp n pts = .ok r)
     (hex : ∃ p ∈ pts, ∃ q ∈ pts, V3.dot (p - pp) n < 0 ∧ 0 < V3.dot (q - pp) n)
     (hall : ∀ p ∈ pts, ∀ q ∈ pts, V3.dot (p - pp) n < 0 → 0 < V3.dot (q - pp) n →
       V3.dot (segmentToLine p q).1 n * V3.dot (segmentToLine p q).1 n < 1e-6) :
     ¬ planeSet pp n r.p1 ∧ 0 < r.d ∧ r.br = 3 := by
   obtain ⟨p, hp, q, hq, hpn, hqp⟩ := hex
   have hne : pts ≠ [] := List.ne_nil_of_mem hp
-  obtain ⟨pmin, pmax, hmin, hmax, hlo, hhi, hc⟩ := planeToHull_char pp n pts hne
+  have h' : planeToHullG false pp n pts = .ok r := h
+  obtain ⟨pmin, pmax, hmin, hmax, hlo, hhi, hc⟩ := planeToHullG_char false pp n pts hne
   have h1 : V3.dot (pmin - pp) n < 0 := lt_of_le_of_lt (hlo p hp) hpn
   have h2 : 0 < V3.dot (pmax - pp) n := lt_of_lt_of_le hqp (hhi q hq)
   rcases hc with ⟨_, he⟩ | ⟨hs, _⟩
-  · rw [he] at h
+  · rw [he] at h'
+    obtain ⟨r', hr', hrr⟩ := hullFwd_ok h'
+    simp only [Bool.false_eq_true, if_false] at hrr
+    subst hrr
     have hb := hall pmin hmin pmax hmax h1 h2
     have hτ : V3.dot n (pmin - pp) = V3.dot (pmin - pp) n := V3.dot_comm _ _
-    rcases segToPlaneK_char h with ⟨_, hge, _⟩ | ⟨_, hge, _⟩ | ⟨_, hge, _⟩ | ⟨hbr, _, hf⟩
+    rcases segToPlaneK_char hr' with ⟨_, hge, _⟩ | ⟨_, hge, _⟩ | ⟨_, hge, _⟩ | ⟨hbr, _, hf⟩
     · exfalso; linarith
     · exfalso; linarith
     · exfalso; linarith
@@ -385,16 +446,17 @@ theorem planeToHull_asIs_band {pp n : V} {pts : List V} {r : Res3 ℝ} (h : plan
       · rw [hf.1, hτ]; exact abs_pos.mpr (ne_of_lt h1)
   · exfalso; apply hs; nlinarith
 
-/-- concrete instance of the defect: a triangle of edge length ≈ 1 crossing the plane `z = 0`
-at an angle of about 0.03° (`plane_to_triangle` on this input returns
-`(2⁻¹², (0,0,−2⁻¹²), (0,0,0))` in `/repo`) -/
-theorem planeToTriangle_asIs_counterexample :
-    ∃ r, planeToTriangle (⟨0, 0, 0⟩ : V) ⟨0, 0, 1⟩ ⟨0, 0, -(1 / 4096)⟩ ⟨1, 0, 1 / 4096⟩ ⟨0, 1, 1 / 4096⟩ = .ok r ∧
+/-- concrete instance of the repaired defect: a triangle of edge length ≈ 1 crossing the plane `z = 0`
+at an angle of about 0.03° (`plane_to_triangle` on this input returned
+`(2⁻¹², (0,0,−2⁻¹²), (0,0,0))` before /repo 4c5c535) -/
+theorem planeToTriangle_before_fix_counterexample :
+    ∃ r, planeToTriangle_asIs_before_fix (⟨0, 0, 0⟩ : V) ⟨0, 0, 1⟩ ⟨0, 0, -(1 / 4096)⟩ ⟨1, 0, 1 / 4096⟩
+        ⟨0, 1, 1 / 4096⟩ = .ok r ∧
       ¬ planeSet (⟨0, 0, 0⟩ : V) ⟨0, 0, 1⟩ r.p1 ∧ 0 < r.d := by
-  obtain ⟨r, hr⟩ := planeToHull_ok (⟨0, 0, 0⟩ : V) ⟨0, 0, 1⟩
+  obtain ⟨r, hr⟩ := planeToHullG_ok false (⟨0, 0, 0⟩ : V) ⟨0, 0, 1⟩
     [⟨0, 0, -(1 / 4096)⟩, ⟨1, 0, 1 / 4096⟩, ⟨0, 1, 1 / 4096⟩] (by simp)
   refine ⟨r, hr, ?_⟩
-  have key := planeToHull_asIs_band hr
+  have key := planeToHull_before_fix_band hr
     ⟨⟨0, 0, -(1 / 4096)⟩, by simp, ⟨1, 0, 1 / 4096⟩, by simp, by vsimp; norm_num, by vsimp; norm_num⟩
     (by
       intro p hp q hq hpn hqp
